@@ -4,7 +4,7 @@ import Octo.Lemmas.SqlComb
 # Round trip of expressions, one precedence level at a time (C30)
 -/
 set_option linter.unusedSimpArgs false
-namespace Octo.Sql
+namespace Octo.SqlSyn
 
 def followS : List Tok → Bool
   | [] => true
@@ -1005,4 +1005,4 @@ theorem star2_here (t1 t2 : Tok) (rest : List Tok) (h1 : identOf t1 ≠ none) (h
 
 end level
 
-end Octo.Sql
+end Octo.SqlSyn
